@@ -124,5 +124,6 @@ Definition is_syntax (e : gql_error) : bool := match e with ESyntax _ _ => true 
 Definition stages_wf_b (doc : str) (st : stages) : bool :=
   forallb (err_ok_b doc) (st_validation st) && forallb (fun e => negb (is_syntax e)) (st_validation st) &&
   forallb (err_ok_b doc) (st_varcoercion st) && forallb (fun e => negb (is_syntax e)) (st_varcoercion st) &&
+  forallb (err_ok_b doc) (st_rootcoercion st) && forallb (fun e => negb (is_syntax e)) (st_rootcoercion st) &&
   forallb (err_ok_b doc) (snd (st_exec st)) && forallb (fun e => negb (is_syntax e)) (snd (st_exec st)) &&
   strict_json (fst (st_exec st)).
